@@ -27,7 +27,13 @@ import sys
 CLASSES = [("dimod/binary/binary_quadratic_model.py", "BinaryQuadraticModel"),
            ("dimod/quadratic/quadratic_model.py", "QuadraticModel"),
            ("dimod/constrained/constrained.py", "ConstrainedQuadraticModel"),
-           ("dimod/sampleset.py", "SampleSet")]
+           ("dimod/sampleset.py", "SampleSet"),
+           ("dimod/discrete/discrete_quadratic_model.py", "DiscreteQuadraticModel"),
+           ("dimod/higherorder/polynomial.py", "BinaryPolynomial"),
+           ("dimod/variables.py", "Variables"),
+           ("dimod/binary/vartypeview.py", "VartypeView")]
+# public methods that hand out an object built from the receiver: copy, relabel_*, to_* / from_* constructors
+CONSTRUCTOR_RE = r"^(copy|relabel_variables(_as_integers)?|to_[a-z_]+|from_[a-z_]+)$"
 PYX = [("dimod/constrained/cyconstrained.pyx", "cyConstrainedQuadraticModel")]
 PARAMS = ("inplace", "copy")
 # module functions of sampleset.py whose result is a NEW sample set built from given ones
@@ -70,6 +76,7 @@ def params_of(fn, where):
 def main():
     build, out = sys.argv[1], sys.argv[2]
     rows = []
+    ctors = []
     for rel, cname in CLASSES:
         path = os.path.join(build, rel)
         if not os.path.exists(path):
@@ -82,6 +89,8 @@ def main():
             raise Bad(f"class {cname} not found in {rel} (or defined twice)")
         seen = set()
         for fn in cls[0].body:
+            if isinstance(fn, (ast.FunctionDef, ast.AsyncFunctionDef)) and re.match(CONSTRUCTOR_RE, fn.name):
+                ctors.append((cname, fn.name, returns_self(fn)))
             if not isinstance(fn, (ast.FunctionDef, ast.AsyncFunctionDef)):
                 continue
             if fn.name.startswith("_"):
@@ -132,6 +141,9 @@ def main():
              "Definition gen_copy_api : list (string * string * string * bool * bool) :=", "  ["]
     lines.append(";\n".join('   ("%s", "%s", "%s", %s, %s)' % (c, m, p, b(d), b(rs)) for c, m, p, d, rs in rows))
     lines += ["  ].", "",
+              "(* public copy / relabel_* / to_* / from_* methods of the same classes: (class, method, body contains `return self`) *)",
+              "Definition gen_copy_constructors : list (string * string * bool) :=", "  [",
+              ";\n".join('   ("%s", "%s", %s)' % (c, m, b(rs)) for c, m, rs in sorted(set(ctors))), "  ].", "",
               "(* module functions of dimod/sampleset.py that build a new SampleSet from given ones *)",
               "Definition gen_sampleset_functions : list string :=",
               "  [" + "; ".join('"%s"' % f for f in ss_funcs) + "].", ""]
